@@ -60,6 +60,12 @@ check("C23", "model_checking",
       "TLA+ state machine over alive/moved sets enumerated by TLC, spec->impl replay through the in-process checker",
       "DESIGN.md section 6 C23")
 
+check("C28", "model_checking",
+      "DocSync.tla models the client's copy of a document over ASCII, 2-byte, 3-byte, astral characters and line feeds, the LSP position arithmetic (UTF-16 columns, clamping past the end of a line) and incremental changes. TLC enumerates every transition of the document state graph (documents <= 3 characters quick / 4 thorough, every range, six replacement texts, overshooting columns) and simulates 25-step histories on documents up to 30 characters, also regrouped into multi-change notifications. Every history is replayed through the real language server (didOpen + didChange via els::Server::bind_fake_client) and VFS.read must equal the client's copy after each notification; a server panic is a violation. A transcription of the pre-fix position arithmetic is refuted by TLC as a model canary.",
+      "Trusted: TLC; the concretisation of character classes (a, e-acute, hiragana a, U+1F600, LF); LF-only line ends; every change carries a range.",
+      "TLA+ spec of client copy + LSP positions, TLC state-graph enumeration and simulation, spec->impl replay through the real server",
+      "DESIGN.md section 6 C28")
+
 NOT_APPLICABLE = {
     "C16": "static comparison of opcode/magic tables with external ground truth: no state or behaviour for a TLA+ specification to constrain (DESIGN.md section 7)",
     "C27": "data audit of ~150 declaration files against installed interpreters/typeshed: no behaviour to model in TLA+ (DESIGN.md section 7)",
